@@ -23,6 +23,8 @@ Lemma usability_reasons_ok :
 Proof. reflexivity. Qed.
 Lemma sdist_extra_default_ok : sdist_extra_default = ""%string.
 Proof. reflexivity. Qed.
+Lemma glibc_rejects_only_newer_ok : glibc_rejects_only_newer = true.
+Proof. reflexivity. Qed.
 Lemma py_minor_reads_all_digits_ok : py_minor_reads_all_digits = true.
 Proof. reflexivity. Qed.
 Lemma pin_ops_ok : forall c, is_pin_clause c = true -> cop c = OEq /\ cwild c = false.
